@@ -163,7 +163,7 @@ pub fn watch() -> &'static Arc<Watch> {
                 std::env::var("VERIF_HANG_SECS")
                     .ok()
                     .and_then(|s| s.parse().ok())
-                    .unwrap_or(60),
+                    .unwrap_or(120),
             ),
         });
         let w2 = w.clone();
